@@ -698,6 +698,31 @@ def main(argv):
                         got = "%s: %s" % (type(e).__name__, str(e)[:150])
                     if got != want:
                         fail("include#every_spelling_of_the_include_line", dict(main=main, include=[body[1]], reader=kind, spelling=spelling), dict(printed=got))
+            # nested includes: an include line as the first, a middle or the last line of an included file, the files in free
+            # or in fixed form (a fixed-form reader looks one line ahead), the innermost file with several statements
+            flat = "program p\n  integer :: a, b, c\n  a = 1\n  b = 2\n  b = b + 1\n  b = b + 2\n  c = 3\nend program p\n"
+            want_nested = str(parse(flat))
+            for form, pad in (("free", "  "), ("fixed", "      ")):
+                inner = "".join(pad + l + "\n" for l in ("b = 2", "b = b + 1", "b = b + 2"))
+                for place, outer_lines, main_body in (
+                        ("last", ["a = 1", "include 'inner.inc'"], ["include 'outer.inc'", "c = 3"]),
+                        ("first", ["include 'inner.inc'", "c = 3"], ["a = 1", "include 'outer.inc'"]),
+                        ("middle", ["a = 1", "include 'inner.inc'", "c = 3"], ["include 'outer.inc'"]),
+                        ("only", ["include 'inner.inc'"], ["a = 1", "include 'outer.inc'", "c = 3"])):
+                    open(os.path.join(d2, "inner.inc"), "w").write(inner)
+                    open(os.path.join(d2, "outer.inc"), "w").write("".join(pad + l + "\n" for l in outer_lines))
+                    main = "program p\n  integer :: a, b, c\n" + "".join("  " + l + "\n" for l in main_body) + "end program p\n"
+                    open(os.path.join(d1, "main.f90"), "w").write(main)
+                    cases += 1
+                    for kind in ("file", "string"):
+                        for okw in (dict(), dict(ignore_comments=False)):
+                            try:
+                                rd = FortranFileReader(os.path.join(d1, "main.f90"), include_dirs=[d2], **okw) if kind == "file" else FortranStringReader(main, include_dirs=[d2], **okw)
+                                got = str(ParserFactory().create(std="f2003")(rd))
+                            except BaseException as e:  # noqa
+                                got = "%s: %s" % (type(e).__name__, str(e)[:150])
+                            if got != want_nested:
+                                fail("include#nested_includes_are_transparent", dict(main=main, form=form, nested_include_is=place, reader=kind, options=okw), dict(printed=got))
             # histories: the same include name resolved under different include paths in one process
             with tempfile.TemporaryDirectory() as da, tempfile.TemporaryDirectory() as db, tempfile.TemporaryDirectory() as dc:
                 open(os.path.join(da, "h.inc"), "w").write("  i = 1\n")
